@@ -745,7 +745,15 @@ where
                             let old_hash = fg[0].file_hash.clone();
                             hash = hash_fn((&mut fg[0].file_info, old_hash));
                             if hash.is_none() {
-                                fg.remove(0);
+                                // If the path still leads to the file, the failure is a property
+                                // of the file (its length has changed, it cannot be read): the
+                                // other paths would fail the same way, after reading it again.
+                                match FileId::new(&fg[0].file_info.path) {
+                                    Ok(id) if id == fg[0].file_info.id => fg.clear(),
+                                    _ => {
+                                        fg.remove(0);
+                                    }
+                                }
                             }
                         }
                         if let Some(hash) = hash {
@@ -823,13 +831,23 @@ where
         })
         .collect();
     // The examined files belong to the files of the same length and hash
-    for group in examined_groups {
-        let same_key = |g: &&mut FileGroup<FileInfo>| {
-            g.file_len == group.file_len && g.file_hash == group.file_hash
-        };
-        match hashed_groups.iter_mut().find(same_key) {
-            Some(g) => g.files.extend(group.files),
-            None => hashed_groups.push(group),
+    if !examined_groups.is_empty() {
+        let mut index: HashMap<(FileLen, FileHash), usize> = hashed_groups
+            .iter()
+            .enumerate()
+            .map(|(i, g)| ((g.file_len, g.file_hash.clone()), i))
+            .collect();
+        for group in examined_groups {
+            match index.get(&(group.file_len, group.file_hash.clone())) {
+                Some(i) => hashed_groups[*i].files.extend(group.files),
+                None => {
+                    index.insert(
+                        (group.file_len, group.file_hash.clone()),
+                        hashed_groups.len(),
+                    );
+                    hashed_groups.push(group)
+                }
+            }
         }
     }
 
